@@ -32,8 +32,7 @@ def params(tier):
     return [P(f"o{i}", 0, max_options(alpha) - 1) for i in range(K)]
 
 
-@guard
-def rfn(a, tier, four=False):
+def _rfn(a, tier, four=False):
     alpha, K = (ALPHA_4, 4) if four else cfg(tier)
     ops = decode(a, alpha, K)
     div, eng = run_history(ops, listen="extra", check_events=True)
@@ -45,6 +44,8 @@ def rfn(a, tier, four=False):
         return OK(summary, nontrivial=False)
     return OK(summary, nontrivial=sum(len(m.events) for m in eng.model) > 0)
 
+
+rfn = guard(lambda a, tier: _rfn(a, tier, False))
 
 R = Harness(
     prop="C18",
@@ -70,7 +71,7 @@ R = Harness(
 R4 = Harness(
     prop="C18",
     name="R4",
-    fn=lambda a, tier: rfn(a, tier, True),
+    fn=guard(lambda a, tier: _rfn(a, tier, True)),
     params=lambda tier: [P(f"o{i}", 0, max_options(ALPHA_4) - 1) for i in range(4)],
     cube=lambda tier: 2,
     tiers=("thorough",),
